@@ -941,6 +941,8 @@ class Executor:
                 st.havoc_heap()
         elif hv:
             st.havoc_arrays(hv)
+        if self.ctx.hooks is not None and hasattr(self.ctx.hooks, 'on_loop_head'):
+            self.ctx.hooks.on_loop_head(self, st, node)      # after the havoc: the state at the head of an arbitrary iteration
 
     def check_kind_stability(self, node, st: State, name):
         for nm, kind in st.ghost.get('c:loopkinds:%d' % id(node), ()):
